@@ -1,14 +1,14 @@
 SPECIFICATION Spec
-CONSTANTS NV = 4
-          Mode = "C32"
-          Areas = {"sc"}
+CONSTANTS NV = 5
+          Mode = "C34"
+          Areas = {"nodeA", "nodeB"}
           AltSp = TRUE
           MaxView = 2
-          MaxHeight = 1
-          MaxId = 1
-          MaxSigns = 3
+          MaxHeight = 3
+          MaxId = 2
+          MaxSigns = 99
           NWho = 1
-          Rich = FALSE
+          Rich = TRUE
           EmitOn = TRUE
 VIEW View
 CONSTRAINT Bound
